@@ -63,6 +63,12 @@ Proof.
   destruct ok; intros H; inv H; [|cbn; congruence]. unfold cancel_task. destruct (pc P D s3); cbn; congruence.
 Qed.
 
+Lemma request_pause_in_task_blk (s : st) d s' e o : request_pause_in_task P D s d = (s', e, o) -> blk s' = blk s.
+Proof.
+  unfold request_pause_in_task. destruct (request_pause P D s d) as [[s1 e1] o1] eqn:E.
+  apply request_pause_blk in E. intros H; inv H. destruct (resumable P D s); exact E.
+Qed.
+
 Lemma reset_checkpoint_blk (s : st) : blk (reset_checkpoint P D s) = blk s.
 Proof. unfold reset_checkpoint. destruct (cache P D s); reflexivity. Qed.
 
@@ -80,6 +86,7 @@ Proof.
            | H : dcall _ _ _ _ _ _ = _ |- _ => apply dcall_blk in H
            | H : call_pausables _ _ _ _ _ = _ |- _ => apply call_pausables_blk in H
            | H : request_pause _ _ _ _ = _ |- _ => apply request_pause_blk in H
+           | H : request_pause_in_task _ _ _ _ = _ |- _ => apply request_pause_in_task_blk in H
            | H : finish_read _ _ _ _ _ _ _ = _ |- _ => apply finish_read_blk in H
            end;
     rewrite ?reset_checkpoint_blk; cbn in *; rewrite ?reset_checkpoint_blk; try congruence; try reflexivity.
